@@ -1,1 +1,3 @@
-import CnlModel.Basic
+import CnlModel.Wide
+namespace Cnl.C10
+end Cnl.C10
